@@ -8,7 +8,7 @@ REPO = os.environ.get("VERIF_REPO", "/repo")
 SCRATCH = os.environ.get("VERIF_SCRATCH", "/var/tmp/turdb-verif")
 KANI_TARGET = os.environ.get("VERIF_KANI_TARGET", os.path.join(VERIF, ".cache", "kani-target"))
 CONTRACTS = os.path.join(VERIF, "contracts")
-REPLAYS = os.path.join(VERIF, "replays")
+REPLAYS = os.environ.get("VERIF_REPLAY_DIR", os.path.join(VERIF, "replays"))
 NCPU = os.cpu_count() or 4
 
 
@@ -450,8 +450,9 @@ def scan_assumptions(paths):
 
 
 def write_evidence(prop, ev):
-    os.makedirs(os.path.join(VERIF, "evidence"), exist_ok=True)
-    p = os.path.join(VERIF, "evidence", prop + ".json")
+    edir = os.environ.get("VERIF_EVIDENCE_DIR", os.path.join(VERIF, "evidence"))
+    os.makedirs(edir, exist_ok=True)
+    p = os.path.join(edir, prop + ".json")
     with open(p, "w") as f:
         json.dump(ev, f, indent=1, sort_keys=False)
     return p
